@@ -152,7 +152,7 @@ def history(draw, focus='general', max_ops=24):
     ids = draw(st.lists(st.sampled_from(pool), min_size=u, max_size=u))
     pre = draw(_prefix())
     ops = draw(st.lists(op_strategy(focus, sorted(set(pool))), min_size=1, max_size=max_ops))
-    return {'ids': ids, 'nw': NW, 'ops': [list(o) for o in pre] + [list(o) for o in ops]}
+    return {'ids': ids, 'nw': NW, 'held': draw(st.sampled_from([0, 0, 1, 2])), 'ops': [list(o) for o in pre] + [list(o) for o in ops]}
 
 
 # ------------------------------------------------------------------------------ small scope
@@ -168,7 +168,7 @@ SHAPES = {
     'detached-chain-linked-leaf': [('append', 0, 1, ''), ('append', 1, 2, ''), ('pred_append', 2, 3, '')],
     'linked-grandchild': [('append', 0, 3, ''), ('append', 1, 2, ''), ('succ_append', 2, 0, '')],
     'wbs-with-two-branches': [('append', -1, 0, ''), ('append', 0, 2, ''), ('append', -1, 1, '')],
-    'flat-roots-with-name-ties': [('append', -1, 3, ''), ('append', -1, 1, ''), ('append', -1, 0, ''), ('append', -1, 2, '')],
+    'flat-roots-with-name-ties': [('append', -1, 1, ''), ('append', -1, 0, ''), ('append', -1, 2, ''), ('append', -1, 3, '')],
     'children-with-name-ties': [('append', 1, 0, ''), ('append', 1, 2, ''), ('append', 1, 3, '')],
 }
 
@@ -202,7 +202,7 @@ def small_alphabet(reduced=True):
         for s in seqs1 + ([[0, 1], [1, 2]] if reduced else seqs2):
             for b, a in [(None, None)] + [(x, None) for x in ts] + [(None, x) for x in ts] + [(0, 1)]:
                 ops.append(('move', o, s, b, a, ''))
-        for key in ('id', 'name') + (() if reduced else ('zzz',)):
+        for key in ('id', 'name', 'rank') + (() if reduced else ('zzz',)):
             for rev in (False, True):
                 ops.append(('sort', o, key, rev, ''))
         for ids in ([[1], [2, 1], [3, 2], [9]] if reduced else [[1], [2], [3], [1, 2], [2, 1], [3, 2], [2, 3], [9], [1, 1]]):
@@ -271,8 +271,26 @@ def mixed_histories():
         for first, second in ((red, tny), (tny, red)):
             for a in first:
                 for b in second:
-                    yield {'ids': SHAPE_IDS.get(name, SMALL_IDS), 'nw': SMALL_NW, 'shape': name,
+                    yield {'ids': SHAPE_IDS.get(name, SMALL_IDS), 'nw': SMALL_NW, 'shape': name, 'held': True,
                            'ops': [list(o) for o in shape] + [list(a), list(b)]}
+
+
+def view_histories():
+    """kept list objects: every pair (order-changing call, list-writing call) on one populated list, in both
+    phases of the kept / fresh alternation, so that each kind of list object can go stale with respect to the other"""
+    for name, own, members in (('flat-roots-with-name-ties', -1, [1, 0, 2, 3]), ('children-with-name-ties', 1, [0, 2, 3])):
+        pairs = [(a, b) for a in members for b in members if a != b]
+        order_ops = [('move', own, [a], b, None, '') for a, b in pairs] + [('move', own, [a], None, b, '') for a, b in pairs[:4]]
+        order_ops += [('sort', own, k, r, '') for k in ('id', 'name') for r in (False, True)]
+        order_ops += [('reorder', own, [SHAPE_IDS[name][members[-1]]], ''), ('reorder', own, [SHAPE_IDS[name][members[1]], SHAPE_IDS[name][members[0]]], '')]
+        order_ops += [('insert', own, a, i, '') for a in members[:2] for i in (0, 1)]
+        writers = order_ops + [('remove', own, a, '') for a in members] + [('append', own, a, '') for a in members]
+        writers += [('remove_all', own, [SHAPE_IDS[name][members[0]], SHAPE_IDS[name][members[-1]]], '')]
+        for a in order_ops:
+            for b in writers:
+                for held in (1, 2):
+                    yield {'ids': SHAPE_IDS[name], 'nw': SMALL_NW, 'shape': name, 'held': held,
+                           'ops': [list(o) for o in SHAPES[name]] + [list(a), list(b)]}
 
 
 def small_histories(length, reduced=True, tiny=False):
@@ -281,5 +299,6 @@ def small_histories(length, reduced=True, tiny=False):
         if tiny and name in ('flat-roots-with-name-ties', 'children-with-name-ties', 'linked-pair'):
             continue        # the sort / link shapes add nothing to the hierarchy-only 2-step enumeration
         for combo in itertools.product(alpha, repeat=length):
-            yield {'ids': SHAPE_IDS.get(name, SMALL_IDS), 'nw': SMALL_NW, 'shape': name,
-                   'ops': [list(o) for o in shape] + [list(o) for o in combo]}
+            for held in (True,):      # held mode alternates kept and fresh list objects, so it covers both
+                yield {'ids': SHAPE_IDS.get(name, SMALL_IDS), 'nw': SMALL_NW, 'shape': name, 'held': held,
+                       'ops': [list(o) for o in shape] + [list(o) for o in combo]}
